@@ -112,6 +112,48 @@ fn built_transaction_never_spends_more_than_it_consumes() {
     }
 }
 
+/// C19 (third sentence, after a reorganisation): what the wallet records about a slip must be the slip — otherwise the
+/// inputs it later builds from that record name an output that does not exist. A block that spends one of the wallet's
+/// slips is wound and unwound again; afterwards every recorded slip must still regenerate its own ledger key.
+#[test]
+fn unwound_block_restores_the_slip_it_spent() {
+    use crate::core::consensus::block::Block;
+    let (pk, sk) = generate_keys();
+    let mut rng = Rng::from_env();
+    for round in 0..50 {
+        let mut w = Wallet::new(sk, pk);
+        // an output of block 3 (transaction #2, slip #1) that belongs to the wallet
+        let mut s = Slip::default(); s.public_key = pk; s.amount = 1 + rng.below(10_000); s.block_id = 3; s.tx_ordinal = 2; s.slip_index = 1;
+        s.generate_utxoset_key();
+        w.add_slip(3, 2, &s, true, None);
+        // block 5: its transaction #k spends that output
+        let k = rng.below(3) as usize;
+        let mut b = Block::new(); b.id = 5;
+        for j in 0..3usize {
+            let mut tx = Transaction::default();
+            if j == k { tx.from.push(s.clone()); }
+            let mut o = Slip::default(); o.public_key = [9u8; 33]; o.amount = 1; o.block_id = 5; o.tx_ordinal = j as u64; o.slip_index = 0; o.generate_utxoset_key();
+            tx.to.push(o);
+            tx.generate_hash_for_signature();
+            b.transactions.push(tx);
+        }
+        w.on_chain_reorganization(&b, true, 100);
+        if w.slips.contains_key(&s.utxoset_key) { witness(format!("round {}: the spent slip is still recorded after winding the block that spends it", round)); }
+        w.on_chain_reorganization(&b, false, 100);
+        if let Err(e) = balance_matches(&w) { witness(format!("round {}: {}", round, e)); }
+        match w.slips.get(&s.utxoset_key) {
+            None => witness(format!("round {}: unwinding the block did not bring the spent slip back", round)),
+            Some(ws) => {
+                let mut again = Slip::default(); again.public_key = pk; again.amount = ws.amount; again.block_id = ws.block_id; again.tx_ordinal = ws.tx_ordinal; again.slip_index = ws.slip_index; again.slip_type = ws.slip_type;
+                if again.get_utxoset_key() != s.utxoset_key {
+                    witness(format!("wallet slip from block 3, transaction 2, slip 1 (amount {}) is spent by transaction #{} of block 5; the block is wound and unwound again: the wallet now records the slip as block {}, transaction {}, slip {} — an input built from this record (as Wallet::generate_slips does) names a ledger key that does not exist, so the transaction cannot validate",
+                        s.amount, k, ws.block_id, ws.tx_ordinal, ws.slip_index));
+                }
+            }
+        }
+    }
+}
+
 /// C10/C12: the wallet file decoder is fed whatever is on disk (RustIOHandler::load_wallet passes the file's bytes
 /// unchecked); a truncated or torn file must not abort the node
 #[test]
